@@ -54,6 +54,11 @@ package specs
 //@ pure
 //@ ensures (result < 0) == (bytes.Compare(b, a) > 0) && (result == 0) == (bytes.Compare(b, a) == 0)
 
+// a byte string is at least as long as any of its prefixes
+//@ func bytes.HasPrefix
+//@ pure
+//@ ensures result ==> len(s) >= len(prefix)
+
 // ---- sync: lock ghost state (re-entrancy of the current goroutine only) ---------------------
 //@ ghost wheld(m *sync.RWMutex) int
 //@ ghost rheld(m *sync.RWMutex) int
